@@ -553,7 +553,8 @@ META = {
              "ownership protocol: the only writers of a handle's mode pointer are NULL initialisation, the release-write-register bracket, NULL after delete and NULL while the "
              "dying object drains its ring; mode objects are deleted only at 15 enumerated sites under needsFree / drain / owner guards; destructors exit only with an empty "
              "ring; registration with the parent is paired; freeResources covers every ring. A handle history (copies, swaps, frees, destructions) cannot break 'exactly once' "
-             "without one function violating this protocol, and every function is checked on every path - tests only sample histories.",
-    "note": "Decides protocol conformance, not the list surgery inside gc::ring_t (trusted) and not accounted memory (C05). Branch facts are killed by direct writes only. "
+             "without one function violating this protocol, and every function is checked on every path - tests only sample histories. The ring surgery itself (link updates and guards of addRef / removeRef / needsFree, "
+             "addRef declining only a null entry or the current head) is decided by C01-R6.",
+    "note": "Decides protocol conformance and the list surgery of gc::ring_t as sets of assignments and guards, not accounted memory (C05). Branch facts are killed by direct writes only. "
             "Other backends' mode subclasses are compiled out in the pinned configuration.",
 }
